@@ -4,3 +4,4 @@ import PytaskProofs.Properties.C12
 import PytaskProofs.Properties.C19
 import PytaskProofs.Properties.C07
 import PytaskProofs.Properties.C18
+import PytaskProofs.Properties.C13
